@@ -759,12 +759,16 @@ def setMinUnbond (s : St) (e : Nat) : Option (St × Out) := do
   req (e ≤ MAX_MIN_UNBOND_EPOCHS)
   pure ({ s with minUnbond := e }, {})
 
+/-- the configuration `setBoostedYieldsFactors` stores -/
+def nextCfg (cfg : Option BCfg) (W : Nat) (x : Factors) : Option BCfg :=
+  match cfg with
+  | some c => c.update W (some x)
+  | none => some (BCfg.new W x)
+
 /-- `setBoostedYieldsFactors` -/
 def setFactors (s : St) (x : Factors) : Option (St × Out) := do
   req (0 < x.minE ∧ 0 < x.minF)
-  let c ← match s.b.cfg with
-    | some c => c.update s.week (some x)
-    | none => some (BCfg.new s.week x)
+  let c ← nextCfg s.b.cfg s.week x
   pure ({ s with b := { s.b with cfg := some c } }, {})
 
 /-- the loop of `collect_undistributed_boosted_rewards` over `count` weeks starting at `week` -/
